@@ -177,10 +177,10 @@ def examplePkt : Packet.Pkt :=
   { l2 := { srcMAC := [0, 17, 34, 51, 68, 85], dstMAC := [170, 187, 204, 221, 238, 255], vlan := 0, etherType := 2048 },
     l3 := .v4 { version := 4, tos := 0, totalLen := 40, id := 1, flags := 2, fragOff := 0, ttl := 64, protocol := 6,
                 checksum := 0, src := [192, 0, 2, 1], dst := [198, 51, 100, 7] },
-    l4 := .tcp 1234 80 5 0 24 }
+    l4 := .tcp 1234 80 5 5 280 }
 
 def exampleFlowSample : FlowSample :=
-  { seqNo := 1, sourceID := 3, samplingRate := 512, samplePool := 1024, drops := 0, input := 1, output := 2,
+  { seqNo := 1, sourceID := 3, sourceIDIdx := 16777215, samplingRate := 512, samplePool := 1024, drops := 0, input := 1, output := 2,
     recordsNo := 3,
     recs := { raw := some examplePkt,
               sw := some { srcVlan := 10, srcPriority := 0, dstVlan := 20, dstPriority := 0 },
@@ -200,7 +200,8 @@ def exampleDatagram : Datagram :=
 example : sflowJson? exampleDatagram = some (txt [
     "{\"Version\":5,\"IPVersion\":1,\"AgentSubID\":0,\"SequenceNo\":7,",
     "\"SysUpTime\":1000,\"SamplesNo\":2,\"Samples\":[{\"SequenceNo\":1,",
-    "\"SourceID\":3,\"SamplingRate\":512,\"SamplePool\":1024,\"Drops\":0,",
+    "\"SourceID\":3,\"SourceIDIdx\":16777215,\"SamplingRate\":512,",
+    "\"SamplePool\":1024,\"Drops\":0,",
     "\"Input\":1,\"Output\":2,\"RecordsNo\":3,\"Records\":{",
     "\"ExtRouter\":{\"NextHop\":\"2001:db8::1\",\"SrcMask\":24,\"DstMask\":16},",
     "\"ExtSwitch\":{\"SrcVlan\":10,\"SrcPriority\":0,\"DstVlan\":20,",
@@ -209,8 +210,8 @@ example : sflowJson? exampleDatagram = some (txt [
     "\"L3\":{\"Version\":4,\"TOS\":0,\"TotalLen\":40,\"ID\":1,\"Flags\":2,",
     "\"FragOff\":0,\"TTL\":64,\"Protocol\":6,\"Checksum\":0,",
     "\"Src\":\"192.0.2.1\",\"Dst\":\"198.51.100.7\"},",
-    "\"L4\":{\"SrcPort\":1234,\"DstPort\":80,\"DataOffset\":5,\"Reserved\":0,",
-    "\"Flags\":24}}}}],\"Counters\":[{\"SequenceNo\":2,\"SourceIDType\":0,",
+    "\"L4\":{\"SrcPort\":1234,\"DstPort\":80,\"DataOffset\":5,\"Reserved\":5,",
+    "\"Flags\":280}}}}],\"Counters\":[{\"SequenceNo\":2,\"SourceIDType\":0,",
     "\"SourceIDIdx\":3,\"RecordsNo\":1,\"Records\":{\"Proc\":{\"CPU5s\":1,",
     "\"CPU1m\":2,\"CPU5m\":3,\"TotalMemory\":18446744073709551615,",
     "\"FreeMemory\":0}}}],\"IPAddress\":\"192.0.2.9\",\"ColTime\":0}"]) := by decide +kernel
